@@ -7,7 +7,7 @@
    law flags computed from the implementation's own answers. *)
 From Coq Require Import Lia.
 From GJ Require Import Base Kernel Series Ring PairSpec Pairs PairProofs Obj ObjSpec ObjProofs BoxLaws ContainsBoxes CoversBoxes
-  JordanRing JordanRect ObjSym ObjSelf ObjLaws.
+  JordanRing JordanRect ObjSym ObjSelf ObjLaws ObjLaws2 ObjLaws3 ObjSelf2 ObjSelf3.
 Open Scope Z_scope.
 
 Theorem C09_within_is_contains_swapped : forall a b, o_within a b = o_contains b a.
@@ -107,6 +107,48 @@ Proof. exact g_contains_intersects. Qed.
 Theorem C09_contains_point_implies_intersects : forall a q,
   g_contains (g_of_shape a) (GPoint q) = Some true -> g_intersects (g_of_shape a) (GPoint q) = true.
 Proof. exact g_contains_point_intersects. Qed.
+(* ... Line receivers (all argument kinds, polygons without holes) and Polygon receivers (holes allowed
+   in the receiver; the argument has fewer than 16 points — below the bounding-box shortcut of
+   ringContainsRing — and no holes) *)
+Theorem C09_line_contains_implies_intersects : forall ps b, s_wf b ->
+  g_contains (g_of_shape (SLine ps)) (g_of_shape b) = Some true ->
+  g_intersects (g_of_shape (SLine ps)) (g_of_shape b) = true.
+Proof. exact g_contains_intersects_line. Qed.
+Theorem C09_polygon_contains_implies_intersects : forall e hs b, s_wf b -> short b ->
+  g_contains (g_of_shape (SPoly e hs)) (g_of_shape b) = Some true ->
+  g_intersects (g_of_shape (SPoly e hs)) (g_of_shape b) = true.
+Proof. exact g_contains_intersects_poly. Qed.
+(* ... and at the object level, through Features, collections and nesting: A.Contains(B) for a
+   non-empty B implies A.Intersects(B) *)
+Theorem C09_contains_implies_intersects_objects : forall a b, obj_wf a -> obj_wf b ->
+  (forall x, In x (sleaves a) -> recv_ok x) -> (forall y, In y (sleaves b) -> arg_ok y) ->
+  (forall x y, In x (sleaves a) -> In y (sleaves b) -> no_hole_pair x y) ->
+  o_empty b = false -> o_contains a b = true -> o_intersects a b = true.
+Proof. exact o_contains_intersects. Qed.
+Example C09_contains_intersects_objects_hypotheses_hold_somewhere :
+  obj_wf law_a /\ obj_wf law_b /\ (forall x, In x (sleaves law_a) -> recv_ok x) /\ (forall y, In y (sleaves law_b) -> arg_ok y) /\
+  (forall x y, In x (sleaves law_a) -> In y (sleaves law_b) -> no_hole_pair x y) /\
+  o_empty law_b = false /\ o_contains law_a law_b = true.
+Proof.
+  split; [cbn; tauto|]. split; [cbn; unfold rect_wf, px, py; cbn; lia|].
+  split; [intros x Hx; cbn in Hx; repeat (destruct Hx as [<-|Hx]; [exact I|]); destruct Hx|].
+  split; [intros y Hy; cbn in Hy; repeat (destruct Hy as [<-|Hy]; [split; cbn; try exact I; try reflexivity; try lia; unfold rect_wf, px, py; cbn; lia|]); destruct Hy|].
+  split; [intros x y Hx Hy; cbn in Hy; repeat (destruct Hy as [<-|Hy]; [destruct x; exact I|]); destruct Hy|].
+  split; vm_compute; reflexivity.
+Qed.
+(* a non-empty valid object contains itself: at the Geometry interface (rectangles min <= max; no
+   vertex of a polygon ring in the interior of an edge of the same ring - weaker than simplicity;
+   holes allowed) and at the object level through Features, collections and nesting *)
+Theorem C09_geometry_contains_self : forall s, self_ok s -> s_empty s = false ->
+  g_contains (g_of_shape s) (g_of_shape s) = Some true.
+Proof. exact g_contains_self. Qed.
+Theorem C09_contains_self : forall a, obj_wf a -> (forall x, In x (sleaves a) -> self_ok x) ->
+  o_empty a = false -> o_contains a a = true.
+Proof. exact o_contains_self. Qed.
+Example C09_contains_self_hypotheses_hold_somewhere :
+  self_ok (SPoly [(0,0);(8,0);(8,8);(4,4);(0,8);(0,0)] [[(1,1);(3,1);(2,3);(1,1)]]) /\
+  o_empty self_a = false /\ o_contains self_a self_a = true.
+Proof. split; [exact self_ok_concave|exact self_objects]. Qed.
 Example C09_self_and_contains_hypotheses_hold_somewhere :
   let a := OColl 3 [OPoly [[(0,0);(8,0);(8,8);(0,8);(0,0)]]; OLine [(9,9);(12,12)]; OLine []] in
   obj_wf a /\ o_empty a = false /\ (forall x, In x (sleaves a) -> s_wf x) /\
@@ -137,6 +179,11 @@ Print Assumptions C09_intersects_symmetric.
 Print Assumptions C09_intersects_is_leafwise.
 Print Assumptions C09_intersects_self.
 Print Assumptions C09_contains_implies_intersects_partial.
+Print Assumptions C09_line_contains_implies_intersects.
+Print Assumptions C09_polygon_contains_implies_intersects.
+Print Assumptions C09_contains_implies_intersects_objects.
+Print Assumptions C09_geometry_contains_self.
+Print Assumptions C09_contains_self.
 Print Assumptions C09_rect_is_its_five_point_ring.
 Print Assumptions C09_rect_poly_is_five_point_polygon.
 Print Assumptions C09_contains_implies_rect_covers.
